@@ -182,8 +182,13 @@ def rule_e(ctx):
                 somes = [(bb, si, st) for bb, bl in enumerate(c.blocks) for si, st in enumerate(bl["s"]) if st["k"] == "assign" and st["r"]["k"] == "aggregate"
                          and st["r"].get("def") == "core::option::Option" and st["r"]["variant"] == "Some"]
                 for (bb, si, st) in somes:
-                    v = _snap_sources(c, fl.operand(st["r"]["ops"][0], (bb, si)))
-                    ctx.check(v == exp, rid, "%s:returned-from-expected" % nm, "%s: the returned index is read from the same snapshot the successful CAS replaced" % nm, st["sp"],
+                    vex = fl.operand(st["r"]["ops"][0], (bb, si))
+                    v = _snap_sources(c, vex)
+                    # the Ok payload of the successful CAS *is* the snapshot it compared against
+                    from_ok = bool(vex) and all(mentions(e, lambda x: x[0] == "downcast" and x[2] == "Ok" and deep_strip(x[1])[0] == "call" and deep_strip(x[1])[1] == s1.bb) and
+                                                 not mentions(e, lambda x: x[0] == "downcast" and x[2] == "Err") and
+                                                 {a for a in v} <= {(s1.bb, s1.op)} for e in vex)
+                    ctx.check(v == exp or from_ok, rid, "%s:returned-from-expected" % nm, "%s: the returned index is read from the same snapshot the successful CAS replaced" % nm, st["sp"],
                               {"returned_from": sorted(v), "cas_expected_from": sorted(exp),
                                "why": "after a failed CAS the head may have been taken by a nested/concurrent operation; returning the old head hands one index to two owners"})
 
